@@ -168,3 +168,42 @@ Proof.
     apply assoc_some_in in E'. apply (Permutation_in _ (Permutation_sym P)) in E'.
     rewrite (assoc_in k v l ND E') in E. discriminate.
 Qed.
+
+(* ---- induction on values ------------------------------------------------------------ *)
+Section ValueInd.
+  Variable P : value -> Prop.
+  Hypothesis HNone : P VNone.
+  Hypothesis HInt : forall z, P (VInt z).
+  Hypothesis HBool : forall b, P (VBool b).
+  Hypothesis HFloat : forall b, P (VFloat b).
+  Hypothesis HStr : forall s, P (VStr s).
+  Hypothesis HPath : forall s, P (VPath s).
+  Hypothesis HEnum : forall q, P (VEnum q).
+  Hypothesis HList : forall l, Forall P l -> P (VList l).
+  Hypothesis HDict : forall l, Forall (fun kv => P (snd kv)) l -> P (VDict l).
+  Hypothesis HRef : forall n, P (VRef n).
+
+  Fixpoint value_ind2 (v : value) : P v :=
+    match v with
+    | VNone => HNone | VInt z => HInt z | VBool b => HBool b | VFloat b => HFloat b
+    | VStr s => HStr s | VPath s => HPath s | VEnum q => HEnum q
+    | VList l => HList l ((fix go (l : list value) : Forall P l :=
+                            match l with [] => Forall_nil _ | x :: l' => Forall_cons _ (value_ind2 x) (go l') end) l)
+    | VDict l => HDict l ((fix go (l : list (bytes * value)) : Forall (fun kv => P (snd kv)) l :=
+                            match l with [] => Forall_nil _ | x :: l' => Forall_cons _ (value_ind2 (snd x)) (go l') end) l)
+    | VRef n => HRef n
+    end.
+End ValueInd.
+
+(* ---- remove_meta: the literal nested loops are filter-then-map --------------------------- *)
+Lemma remove_meta_list h l :
+  remove_meta h (VList l) = VList (map (remove_meta h) (filter (fun x => negb (is_meta h x)) l)).
+Proof.
+  simpl. f_equal. induction l as [|x l IH]; [reflexivity|]. cbn [filter]. destruct (is_meta h x); cbn [negb map]; [exact IH|f_equal; exact IH].
+Qed.
+Lemma remove_meta_dict h l :
+  remove_meta h (VDict l) = VDict (map (fun kv : list N * value => (fst kv, remove_meta h (snd kv)))
+                                       (filter (fun kv : list N * value => negb (is_meta h (snd kv))) l)).
+Proof.
+  simpl. f_equal. induction l as [|[k v] l IH]; [reflexivity|]. cbn [filter snd fst]. destruct (is_meta h v); cbn [negb map fst snd]; [exact IH|f_equal; exact IH].
+Qed.
